@@ -60,7 +60,7 @@ CLAIMED = {
         "bit-equal output. Manufactured ODE problems (order 1-3, 11 transform families, admitted by an independent reference solve) are the workload that makes the seam "
         "observable; a wrong coefficient transformation trips the accuracy oracle as a by-product (it found HandyModRTransform.deriv3), but coverage of the ODE space is sampling.",
         "design_ref": "DESIGN.md section 3 (C15)",
-        "note": "Accuracy envelope 2000*tol*scale calibrated on this tree (max seen 64*tol over 11 200 runs, 30x margin); increasing maps only; HyperbolicRTransform excluded (its validity depends on array length); "
+        "note": "Accuracy envelope 5000*tol*scale calibrated on this tree (max seen 292*tol over 8400 runs of the final workload, 17x margin); increasing maps only; HyperbolicRTransform excluded (its validity depends on array length); "
         "a 'did not converge' error is retried at a 100x / 10^4 x looser tolerance before it counts; IVP solves run in the same histories with a loose envelope but the IVP clauses are not claimed as decided. "
         "Beyond the RNG seam the histories also share the caller's input objects between solves, solve through up to three admissible maps, steer object-address reuse, hold and re-evaluate returned solution callables, "
         "use re-entrant callbacks and scale the equation by constants (all added after independently produced breakages were missed, DESIGN.md section 10).",
